@@ -341,6 +341,7 @@ func (t *HtmlScanner) readTag() (tok *Token, err error) {
 					End:   t.pos,
 				}), nil
 			}
+			continue // a '>' inside CDATA does not end the section
 		case stateTagSpace: // 读取 tag 中的空白
 			if ch == '>' {
 				break // tag 结束
